@@ -96,5 +96,59 @@ fn main() {
         }
         out.push_str(&format!("{} {} {:016x}\n", idx, ok, h));
     }
+    // fixed probes, independent of the corpus: public limits, and long streams that only large inputs reach
+    let mut h: u64 = 0xcbf29ce484222325;
+    fnv(&mut h, &format!("{} {}", MAX_RECORD_LEN, MAX_RECORD_DATA));
+    out.push_str(&format!("limits MAX_RECORD_LEN={} MAX_RECORD_DATA={}\n", MAX_RECORD_LEN, MAX_RECORD_DATA));
+    // a never-completing handshake stream of 16 KiB records until the defragmenter refuses
+    let mut d = TlsRecordsParser::default();
+    let hdr = TlsRecordHeader { record_type: TlsRecordType::Handshake, version: TlsVersion::Tls12, len: 16384 };
+    let mut first = vec![0u8; 16384];
+    first[..4].copy_from_slice(&[0x0b, 0xff, 0xff, 0xff]);
+    let fill = vec![0x5au8; 16384];
+    let mut refused_at = 0usize;
+    for k in 0..800usize {
+        let r = d.parse_record(TlsRawRecord { hdr, data: if k == 0 { &first } else { &fill } });
+        let s = match &r {
+            Ok(_) => "ok".to_string(),
+            Err(e) => format!("{:?}", e),
+        };
+        fnv(&mut h, &s);
+        if !s.contains("Incomplete") {
+            refused_at = k;
+            break;
+        }
+    }
+    out.push_str(&format!("defrag-stream refused_at_record={} digest={:016x}\n", refused_at, h));
+    // one fragmented 70000-byte message
+    let mut d = TlsRecordsParser::default();
+    let mut body = vec![0x0cu8, 0x01, 0x11, 0x70];
+    body.extend(std::iter::repeat(0x33u8).take(70000));
+    let mut res = String::new();
+    for c in body.chunks(16384) {
+        let hdr = TlsRecordHeader { record_type: TlsRecordType::Handshake, version: TlsVersion::Tls12, len: c.len() as u16 };
+        res = match d.parse_record(TlsRawRecord { hdr, data: c }) {
+            Ok((rem, v)) => format!("ok rem={} msgs={}", rem.len(), v.len()),
+            Err(e) => format!("{:?}", e),
+        };
+    }
+    out.push_str(&format!("defrag-70000 {}\n", res));
+    // records and hellos at their size limits
+    for len in [16640usize, 16641] {
+        let mut rec = vec![0x17u8, 3, 3, (len >> 8) as u8, len as u8];
+        rec.extend(std::iter::repeat(7u8).take(len));
+        let r = parse_tls_plaintext(&rec);
+        out.push_str(&format!("record-{} {}\n", len, match r { Ok((rem, p)) => format!("ok rem={} msgs={}", rem.len(), p.msg.len()), Err(e) => format!("{:?}", e.map(|x| x.code)) }));
+    }
+    let mut ch = vec![3u8, 3];
+    ch.extend([9u8; 32]);
+    ch.push(0);
+    ch.extend([0xffu8, 0xfe]);
+    for i in 0..32767u32 {
+        ch.extend((i as u16).to_be_bytes());
+    }
+    ch.extend([1u8, 0]);
+    let r = parse_tls_handshake_client_hello(&ch);
+    out.push_str(&format!("clienthello-32767 {}\n", match r { Ok((rem, c)) => format!("ok rem={} ciphers={} known={}", rem.len(), c.ciphers.len(), c.get_ciphers().iter().filter(|x| x.is_some()).count()), Err(e) => format!("{:?}", e.map(|x| x.code)) }));
     print!("{}", out);
 }
